@@ -33,7 +33,12 @@ def main():
             miss_first += 1
         print(f"| {m['name']} | {m.get('change', '').replace('|', chr(92) + '|')} | {m.get('needs', '').replace('|', chr(92) + '|')} | {'; '.join(kinds) or 'NOT DETECTED'} | {first} |")
     det = sum(1 for m in metas if m.get('detected_by'))
-    print(f'\n{det} of {len(metas)} seeded changes are detected by the quick tier of the owning check; {miss_first} of them were missed by the '
+    own_quick = [m for m in metas if m['property'] in (m.get('detected_by') or [])
+                 and m.get('checks', {}).get(m['property'], {}).get('tier', 'quick') == 'quick']
+    others = [m['name'] + ' (' + ', '.join(f"{c} {v.get('tier', 'quick')} tier" for c, v in m.get('checks', {}).items() if v['exit'] == 1) + ')'
+              for m in metas if m.get('detected_by') and m not in own_quick]
+    print(f'\n{det} of {len(metas)} seeded changes are detected; {len(own_quick)} of them by the quick tier of the owning check'
+          + (f' (the others: {"; ".join(others)})' if others else '') + f'. {miss_first} of the {len(metas)} were missed by the '
           f'check as first written and led to the strengthening described in the last column.\n')
     if log and os.path.exists(log):
         print('### B.2 Hand-made mutants (`/verif/mutants/*.diff`, driver `tools/mutate.py`, quick tier, VERIF_SEED=1)\n')
